@@ -476,6 +476,7 @@ func c20List(t *testing.T, run *Run, bin string, sc c20Scenario, rng *rand.Rand)
 		hosts, paths, targets []string
 		state                 string
 		tls                   bool
+		sub                   bool // a sub-path service: its TLS flag follows the root-path service of its host
 	}
 	model := map[string]*svc{}
 	names := []string{"alpha", "beta", "gamma"}
@@ -483,11 +484,30 @@ func c20List(t *testing.T, run *Run, bin string, sc c20Scenario, rng *rand.Rand)
 	var hist []string
 	for i := 0; i < n; i++ {
 		name := pick(rng, names)
-		k := rng.IntN(6)
+		k := rng.IntN(7)
 		if model[name] == nil {
 			k = 0
 		}
+		forceTLS := false
+		if (sc.Case == "0" || sc.Case == "1") && i < 2 {
+			// directed start: a TLS root-path service, then a service below a path prefix on its host
+			name, k, forceTLS = "alpha", []int{0, 6}[i], true
+		}
 		switch k {
+		case 6:
+			// a service below a path prefix on the host of `name`
+			sub := name + "-api"
+			s := &svc{state: "running", sub: true, hosts: []string{name + ".example"}, paths: []string{"/api"}, targets: []string{addrs[rng.IntN(len(addrs))]}}
+			if old := model[sub]; old != nil {
+				s.state = old.state
+			}
+			args := []string{"deploy", sub, "--target", s.targets[0], "--host", s.hosts[0], "--path-prefix", "/api"}
+			if out, code := u.CLI(args...); code != 0 {
+				fail("list:deploy-failed", "`%s` failed: %s", strings.Join(args, " "), trunc(out, 200))
+				return
+			}
+			model[sub] = s
+			hist = append(hist, "deploy "+sub)
 		case 0, 1:
 			s := &svc{state: "running"}
 			if old := model[name]; old != nil {
@@ -511,7 +531,7 @@ func c20List(t *testing.T, run *Run, bin string, sc c20Scenario, rng *rand.Rand)
 				s.paths = []string{"/", "/" + name}
 				args = append(args, "--path-prefix", "/", "--path-prefix", name+"/")
 			}
-			if rng.IntN(3) == 0 {
+			if rng.IntN(3) == 0 || forceTLS {
 				s.tls = true
 				args = append(args, "--tls", "--tls-certificate-path", fix+"/cert.pem", "--tls-private-key-path", fix+"/key.pem")
 			}
@@ -547,7 +567,16 @@ func c20List(t *testing.T, run *Run, bin string, sc c20Scenario, rng *rand.Rand)
 		var want []string
 		for nm, s := range model {
 			tls := "no"
-			if s.tls {
+			effective := s.tls
+			if s.sub {
+				effective = false
+				for _, r := range model {
+					if !r.sub && contains(r.hosts, s.hosts[0]) {
+						effective = r.tls
+					}
+				}
+			}
+			if effective {
 				tls = "yes"
 			}
 			want = append(want, strings.Join([]string{nm, strings.Join(s.hosts, ","), strings.Join(s.paths, ","), strings.Join(s.targets, ","), s.state, tls}, " "))
